@@ -7,11 +7,9 @@ CHECK = {
          "leaks": False},   # leak checking is not part of C11; babylon's thread-local singletons leak by design
         # -O2 -DNDEBUG (the NDEBUG code path of the parser), ~10x faster: carries the volume
         {"harness": "c11_serialize", "variant": "plain", "scale": 2.0, "scale_thorough": 1.0, "args": []},
-        # clang libFuzzer, oracle inside the target. Thorough tier only until the three proposed fixes are in
-        # /repo: on the unfixed tree the fuzzer reaches the known hang (length-read failure ignored) within
-        # seconds and libFuzzer cannot continue past a crash in-process. Move to ("quick", "thorough") afterwards
-        # (quick: --runs 150000 is ~40 s).
-        {"harness": "fuzz_c11", "variant": "fuzz", "scale": 1.0, "args": [], "tiers": ("thorough",),
+        # clang libFuzzer, oracle inside the target (the C11 fixes are in /repo, so the fuzzer no longer dies on
+        # the length-read hang within seconds; quick: --runs 150000 is ~40 s).
+        {"harness": "fuzz_c11", "variant": "fuzz", "scale": 1.0, "args": [], "tiers": ("quick", "thorough"),
          "leaks": False},
     ],
     "parallel": 3,
